@@ -1,7 +1,7 @@
 //! C05 — in-order fragments reassemble to exactly the unfragmented message.
 
 use crate::adapter::{configs, Config, STD};
-use crate::engine::{Ctx, Input, Rec, Tier, Verdict};
+use crate::engine::{Ctx, Input, Line, Rec, Tier, Verdict};
 use crate::gen::sentence::inorder_group_history;
 use crate::outcome::Outcome;
 use crate::props::hist::{judge_history, render_steps, DECODE, FIELDS, SEQ};
@@ -79,6 +79,24 @@ pub fn run(ctx: &mut Ctx) {
     ctx.replay_regressions(check);
     let n = ctx.tier.pick(60_000, 400_000);
     ctx.run_proptest("inorder-groups", &STD, n, inorder_group_history(), check);
+    // a group kept waiting while 70 / 300 unfragmented sentences, bad-checksum lines or foreign fragments
+    // pass: noise between fragments is the norm on a radio link, and there is no limit on how much of it
+    for filler in 0..3usize {
+        for count in [70usize, 300] {
+            let mut lines = vec![Line::new(crate::refmodel::build::line(2, 1, Some(4), b"A", b"15", 0), false)];
+            for i in 0..count {
+                lines.push(match filler {
+                    0 => Line::new(crate::refmodel::build::line(1, 1, None, b"B", b"177KQJ5000G?tO`K>RA1wUbN0TKH", 0), i % 2 == 0),
+                    1 => Line::new(b"!AIVDM,1,1,,A,15,0*00".to_vec(), false),
+                    _ => Line::new(crate::refmodel::build::line(2, 2, Some(5), b"A", b"5", 0), false),
+                });
+            }
+            lines.push(Line::new(crate::refmodel::build::line(2, 2, Some(4), b"A", b"55", 0), false));
+            for cfg in configs() {
+                ctx.sweep_case("long-interleavings", cfg, &Input::History { lines: lines.clone() }, check);
+            }
+        }
+    }
     // the no-allocator build around its 384-byte capacity: over-long fragments must be rejected and
     // leave the group as it was
     ctx.run_proptest("capacity-groups", &crate::adapter::NONE, n / 4, crate::props::c18::capacity_histories(), check);
